@@ -90,6 +90,12 @@ func init() {
 			return (*AStack)(nil)
 		case 6:
 			return stackage.Stack{}
+		case 8:
+			return (*stackage.Stack)(nil)
+		case 9:
+			return (*stackage.Condition)(nil)
+		case 10:
+			return stackage.Condition{}
 		}
 		return ACond{}
 	}
@@ -97,7 +103,7 @@ func init() {
 
 func c07Leaf(r *core.Rng) *LeafDesc {
 	if r.Chance(1, 7) {
-		return &LeafDesc{Tag: "odd", I: int64(r.Intn(8))}
+		return &LeafDesc{Tag: "odd", I: int64(r.Intn(11))}
 	}
 	return SimpleLeaf(r)
 }
